@@ -218,9 +218,10 @@ Record cfg := CF {
   cf_path_iso : bool;        (* relationship isomorphism also across the comma-separated paths of a MATCH *)
   cf_with_empty_agg : bool;  (* WITH <aggregates only> over no rows yields one row *)
   cf_sum_distinct : bool;    (* sum(DISTINCT x) removes duplicates *)
-  cf_collect_distinct_entities : bool (* collect(DISTINCT x) keeps nodes and relationships *) }.
-Definition ref_cfg : cfg := CF true true true true true.
-Definition eng_cfg : cfg := CF false false false false false.
+  cf_collect_distinct_entities : bool; (* collect(DISTINCT x) keeps nodes and relationships *)
+  cf_orderby_errors : bool   (* an error in an ORDER BY expression is an error (not a null key) *) }.
+Definition ref_cfg : cfg := CF true true true true true true.
+Definition eng_cfg : cfg := CF false false false false false false.
 
 (* ---------- expressions ---------- *)
 Inductive cmpop := OEq | ONe | OLt | OLe | OGt | OGe.
